@@ -50,6 +50,26 @@ Theorem C09_forms_agree_mode_none :
 Proof. exact forms_agree_mode_none_lemma. Qed.
 Print Assumptions C09_forms_agree_mode_none.
 
+(* Source info of one compiled file, for every form and every value of the mode (the mode is a set of bits; only
+   the value 0 = SourceInfoNone strips): none under SourceInfoNone; under ANY other mode - with or without the
+   Standard bit - source info that came with the supplied descriptor proto (or parse result without AST) is kept
+   as it is, a form with an AST and no source info gets the generated one, a form with neither has none. *)
+Theorem C09_source_info_per_mode :
+  forall (src ast core si : Type) (parse : src -> ast) (to_core : ast -> core)
+         (link_core : core -> list core -> core) (gen_si : N -> ast -> core -> si)
+         (h : heap ast core si) (s : src) (inp : input src) (a : option ast) (s0 : option si)
+         (deps : list core) (mode : N),
+  wfh ast core si h ->
+  represents src ast core si parse to_core h s inp a s0 ->
+  exists c sres h',
+    compile_file src ast core si parse to_core link_core gen_si h inp deps mode = Some ((c, sres), h') /\
+    (mode_none mode = true -> sres = None) /\
+    (mode_none mode = false -> forall x, s0 = Some x -> sres = Some x) /\
+    (mode_none mode = false -> s0 = None -> forall t, a = Some t -> sres = Some (gen_si mode t c)) /\
+    (mode_none mode = false -> s0 = None -> a = None -> sres = None).
+Proof. exact source_info_per_mode_lemma. Qed.
+Print Assumptions C09_source_info_per_mode.
+
 (* Any number of compilations, each with any input form, dependencies and mode, interleaved by any schedule:
    every object that existed when they started (in particular everything the resolver supplied) holds the
    same value afterwards. *)
@@ -92,3 +112,11 @@ Proof. vm_compute. split; reflexivity. Qed.
 Example C09_nonvacuous_result_without_ast :
   run_forms [(FResNoAst, []); (FRes, [0])] 1%N = Some ([(22%N, None); (281%N, Some 3676%N)], true).
 Proof. vm_compute. reflexivity. Qed.
+
+(* a descriptor proto and a parse result without AST that already carry source info keep it under the modes
+   2, 4 and 6 (no Standard bit) and lose it under mode 0 *)
+Example C09_nonvacuous_supplied_source_info :
+  run_forms [(FProtoSI, []); (FResNoAstSI, [0])] 2%N = Some ([(22%N, Some 0%N); (281%N, Some 0%N)], true) /\
+  run_forms [(FProtoSI, []); (FResNoAstSI, [0])] 6%N = Some ([(22%N, Some 0%N); (281%N, Some 0%N)], true) /\
+  run_forms [(FProtoSI, []); (FResNoAstSI, [0])] 0%N = Some ([(22%N, None); (281%N, None)], true).
+Proof. vm_compute. repeat split; reflexivity. Qed.
